@@ -12,7 +12,11 @@ S_WAIT_CER, C_WAIT_CEA, OPEN, CLOSING, CLOSED, DEAD = "S-Wait-CER", "C-Wait-CEA"
 
 EVENTS = ["CER", "CER-other-host", "CER-odd-flags", "CEA", "CEA-other-host", "DWR", "DWR-other-host", "DWA", "DWA-other-host",
           "DPR", "DPR-bad-cause", "DPA", "APP-req", "APP-req-misaddressed", "APP-ans", "local-stop", "local-stop+pending-inbound",
-          "peer-disconnect", "idle", "CEA-duplicate", "DWA-echo", "DWA-echo-twice"]
+          "peer-disconnect", "idle", "CEA-duplicate", "DWA-echo", "DWA-echo-twice",
+          # requests addressed by host only / realm only / to another realm (RFC 6733 6.1.4: local consumption)
+          "APP-req-host-only", "APP-req-realm-only", "APP-req-other-realm"]
+FOR_THIS_NODE = ("APP-req", "APP-req-host-only", "APP-req-realm-only")
+FOR_ANOTHER_NODE = ("APP-req-misaddressed", "APP-req-other-realm")
 # the same valid base messages carrying the optional Origin-State-Id AVP their grammar allows: same cells as the plain ones
 EVENTS_OPT = ["CER+osi", "CEA+osi", "DWR+osi", "DWA+osi",
               # ... a second Host-IP-Address (1*{Host-IP-Address}: a multi-homed peer), and the other optional AVPs of a CER/CEA
@@ -81,6 +85,15 @@ def event_bytes(ev, ids):
         e = m.e2e
     elif ev == "APP-req-misaddressed":
         m = N.app_request(h, dest_host="someone.else", dest_realm=L[1])
+        e = m.e2e
+    elif ev == "APP-req-host-only":
+        m = N.app_request(h, dest_host=L[0])
+        e = m.e2e
+    elif ev == "APP-req-realm-only":
+        m = N.app_request(h, dest_realm=L[1])
+        e = m.e2e
+    elif ev == "APP-req-other-realm":
+        m = N.app_request(h, dest_realm="somewhere.else")
         e = m.e2e
     elif ev == "APP-ans":
         m = N.app_answer(h)
